@@ -217,7 +217,7 @@ theorem sameService_refused (p : PCfg) (hg : p.gateway = true) (he : p.canary = 
     route reports *done* — or an error the caller sees — after at most 2 further rounds.  With two different
     names this is `doTRX_converges` for the lawful Gateway provider; with equal names (no canary Service of its
     own) the provider is refused and the error is returned at once, the route untouched.
-    (Before rollouts commit FIXCOMMIT-sameService a match step doubled the generated rules on every round there
+    (Before rollouts commit 978d35f a match step doubled the generated rules on every round there
     and never settled: `sameConf_match_step_grows`.) -/
 theorem gateway_ref_converges (p : PCfg) (hc : p.custom = false) (hi : p.ingress = none) (hg : p.gateway = true)
     (c : XCtx Strat) (n : XNet CNet) (m : Mem) (href : c.hasRef = true)
@@ -244,7 +244,7 @@ theorem gateway_ref_converges (p : PCfg) (hc : p.custom = false) (hi : p.ingress
     reports *done* the two names differ and the route is clean (no canary ref, `Finalise` has nothing to do); with
     equal names the call is never *done* and the route is **untouched** — the user's own rule for the Service is
     not taken for the canary rule and dropped (which is what the code did before rollouts commit
-    FIXCOMMIT-sameService: `sameConf_finalise_deletes_user_rule`). -/
+    978d35f: `sameConf_finalise_deletes_user_rule`). -/
 theorem gateway_ref_finalise_total (p : PCfg) (hc : p.custom = false) (hi : p.ingress = none) (hg : p.gateway = true)
     (c : XCtx Strat) (a : Api) (n : XNet CNet) (m : Mem) (href : c.hasRef = true)
     (hinv : ∀ r, n.g.2.2 = some r → RV.Oracle.C13.inv ⟨p.stable, p.canary⟩ r = true) :
@@ -658,7 +658,7 @@ theorem read_fault_reported_full (p : PCfg) (cls : RV.Ingress.Class)
 
 The two facts below are about the route *builders* (`RV.Gateway.ensureRoutes` / `finalise`) run with a
 configuration the repaired constructor no longer accepts (`newNetworkProvider_sameService_refused`): they record
-what the code did before rollouts commit FIXCOMMIT-sameService and why equal names are refused rather than
+what the code did before rollouts commit 978d35f and why equal names are refused rather than
 served.  No Manager call reaches the builders with such a configuration any more (`sameService_refused`). -/
 
 section finding
